@@ -15,6 +15,6 @@ CONSTANTS
     MaxGrow = 0
     MacroGet = "bsearch"
     Emit = FALSE
-INVARIANTS GetIsFirst DedupOnceFirst UniqueClaimSound BreakStops EnumIsSpec
+INVARIANTS GetIsFirst DedupOnceFirst UniqueClaimSound BreakStops EnumIsSpec SerIsEnum
 ACTION_CONSTRAINT EmitReplay
 CHECK_DEADLOCK FALSE
